@@ -37,10 +37,16 @@ LEVEL_TEXT = (
     "the storage __len__ measures; the serialisation, declared -> str, is not None); whole-property "
     "setters operate on the same header; (R16.6) every typed header property has a load/dump pair from the reasoned "
     "inverse table (lambdas compared up to parameter names and eta-reduction), the accessor stores dump(value) and "
-    "loads load(item) under its own name, returns its default only on a path that has found the name absent from the "
+    "loads load(item) under its own name - path-wise: every completing path of __set__ that does not know the assigned "
+    "value to be None (identity) ends with that store, so the branch that skips / deletes is taken for the sentinel only, "
+    "never on the truthiness of the value or of its dumped text, equality with or membership in constants (0, timedelta(0), "
+    "'' are values; a condition over the value of any other form is exit 2); every completing path of __delete__ drops the "
+    "item under its own name or has found it absent (not: found its text falsy); every explicit setter of Response whose "
+    "value is declared int / float / timedelta and that writes a header (retry_after) ends with a header write on every "
+    "path that does not know `value is None`; the accessor returns its default only on a path that has found the name absent from the "
     "storage (membership false, storage.get(name) is None / is the fallback it was given) or that runs through an except "
     "clause (KeyError of the item read, the loader's ValueError / TypeError) - never on a path that only knows the "
-    "stored text to be falsy: a header that is present with an empty text is a value -, and _set_cache_value agrees "
+    "stored text, or the value loaded from it, to be falsy: a header that is present with an empty text, or with '0', is a value -, and _set_cache_value agrees "
     "with its decision table under every consistent valuation; (R16.7) every writer of WWWAuthenticate's scheme attribute stores a lower-cased value like "
     "the constructor; (R16.8) a write-back replaces all lines of its header: each header write operation is "
     "classified by executing it on Headers with a string key (replacing: every completing path changes the line "
@@ -146,7 +152,7 @@ def run(ctx: Ctx) -> None:
         "R16.3": "ContentRange / WWWAuthenticate notify after every write of private state; parameter dicts are built with the trigger",
         "R16.4": "a class that overrides __setattr__ delegates to the default for every property with a setter",
         "R16.5": "each view getter's callback writes/deletes the header it was read from, is attached on every return path, writes the view's serialisation; whole-property setters write the same header",
-        "R16.6": "every typed header_property on Response has a load/dump pair from the reasoned inverse table; the accessor stores dump(value) / loads load(item) under its own name and returns the default only for an absent name (presence is not judged by the truthiness of the stored text)",
+        "R16.6": "every typed header_property on Response has a load/dump pair from the reasoned inverse table; the accessor stores dump(value) / loads load(item) under its own name on every path for a value that is not None, deletes under its own name, and returns the default only for an absent name (presence is not judged by the truthiness of the stored text or of the loaded value); explicit scalar setters write the header for every value but None",
         "R16.7": "every writer of WWWAuthenticate's scheme applies the constructor's lower-casing",
         "R16.8": "a write-back replaces the header: its final write is an operation that, executed on Headers, stores the line on every path and can overwrite (an adding operation only right after a replacing write / deletion of the same name), and every name comparison in the Headers operations the views use is case-folded on both sides",
         "R16.9": "a view object that a write-back / whole-property setter treats as empty when it is falsy has nothing to serialise then: falsy (package-defined __bool__ / __len__) implies an empty serialisation",
@@ -354,6 +360,7 @@ def run(ctx: Ctx) -> None:
     ctx.floor("R16.6", "typed header properties", n, 11)
     for k in sorted(acc_classes.values(), key=lambda c: c.fq):
         _accessor(ctx, k)
+    _scalar_setters(ctx, resp)
 
     # ---------------- R16.7 ----------------------------------------
     _, tg = repo.lookup(wa, "type")
@@ -383,6 +390,99 @@ def run(ctx: Ctx) -> None:
         ctx.ob("R16.7", f"WWWAuthenticate.{'type setter' if name == 'type.setter' else name} lower-cases like the constructor", (not init_low) or low, f"constructor stores lower-cased: {init_low}; {label} stores {[e[3][0] for e in w]}", m, m.node, f"{label} normal form")
 
 
+ZERO_TYPES = {"int", "float", "timedelta", "Decimal", "Fraction"}  # annotation names of types with a legitimate falsy value
+
+
+def _admits_zero(ann: ast.AST | None) -> bool:
+    if ann is None:
+        return False
+    if isinstance(ann, ast.Constant) and isinstance(ann.value, str):
+        try:
+            ann = ast.parse(ann.value, mode="eval").body
+        except SyntaxError:
+            return False
+    return any((isinstance(x, ast.Name) and x.id in ZERO_TYPES) or (isinstance(x, ast.Attribute) and x.attr in ZERO_TYPES) for x in ast.walk(ann))
+
+
+def _value_knowledge(facts: dict[str, bool], V: str, also: tuple[str, ...] = ()) -> tuple[str, list[str]]:
+    """(what the path knows about the assigned value, atoms over it that the clause does not model).  Modelled: the
+    truthiness of the value (or of its dumped form), identity with None / True / False, equality with / membership in
+    constants, isinstance tests - a path that skips the store on any of these without knowing ``value is None`` loses
+    a legitimate value.  Anything else over the value (a predicate computed from it) is not judged: exit 2."""
+    subjects = (V,) + also
+    knows, unknown = [], []
+    for key, val in sorted(facts.items()):
+        if not H.re.search(rf"(?<![\w.]){H.re.escape(V)}(?![\w])", key):
+            continue
+        n = H.P(key)
+        ok = key in subjects
+        if isinstance(n, ast.Compare) and len(n.ops) == 1:
+            a, b, op = H.text(n.left), H.text(n.comparators[0]), n.ops[0]
+            for x, y in ((a, b), (b, a)):
+                if x in subjects and (H.const_of(y) is not H._NOCONST or y in ("None", "True", "False")) and isinstance(op, (ast.Is, ast.Eq, ast.In, ast.Lt, ast.LtE, ast.Gt, ast.GtE, ast.NotEq, ast.IsNot, ast.NotIn)):
+                    ok = True
+        elif isinstance(n, ast.Call) and dotted(n.func) == "isinstance" and n.args and H.text(n.args[0]) in subjects:
+            ok = True
+        (knows if ok else unknown).append(f"`{key.replace(V, 'value')}` is {str(val).lower()}")
+    return ", ".join(knows + unknown) or "nothing about the value", unknown
+
+
+def _text_not_none_oracle(repo, module):
+    """``str(x) is None`` / ``f(x) is None`` for a package function declared ``-> str``: false."""
+    def oracle(key: str):
+        n = H.P(key)
+        if isinstance(n, ast.Compare) and len(n.ops) == 1 and isinstance(n.ops[0], ast.Is) and H.text(n.comparators[0]) == "None" and isinstance(n.left, ast.Call):
+            d = dotted(n.left.func)
+            if d in ("str", "repr", "format", "int", "float", "bool"):
+                return False
+            tgt = repo.resolve(module, d) if d else None
+            tf = repo.try_func(tgt) if tgt and tgt.startswith("werkzeug") else None
+            r = tf.node.returns if tf is not None else None
+            if r is not None and ((isinstance(r, ast.Name) and r.id == "str") or (isinstance(r, ast.Constant) and r.value == "str")):
+                return False
+        return None
+
+    return oracle
+
+
+def _scalar_setters(ctx: Ctx, resp: ClassInfo) -> None:
+    """explicit setters of scalar header properties (written out with @prop.setter instead of header_property): where
+    the assigned value's declared type has a legitimate falsy member (int / float / timedelta: 0), the branch that does
+    not write the header (deletes it, returns early) is taken for the sentinel None only - on every completing path
+    that does not know ``value is None`` the last header operation is a write."""
+    repo = ctx.repo
+    n = 0
+    for c in sorted((c for c in repo.all_classes() if resp in repo.mro(c)), key=lambda c: c.fq):
+        for name, fi in sorted(c.methods.items()):
+            if not name.endswith(".setter") or len(fi.params) < 2 or len(fi.node.args.args) < 2:
+                continue
+            if not _admits_zero(fi.node.args.args[1].annotation):
+                continue
+            ex = H.Exec(repo, c, on_event=_header_auto, oracle=_text_not_none_oracle(repo, fi.module))
+            rets = [o for o in ex.run_function(fi, auto0=((), frozenset(), frozenset())) if o.kind == "ret"]
+            if not any(kind in ("W", "A", "M") for o in rets for kind, _, _ in o.st.auto[0]):
+                continue  # not a header property (status_code)
+            n += 1
+            V = "__p1__"
+            bad = []
+            n_paths = 0
+            for o in rets:
+                if o.st.facts.get(f"{V} is None") is True:
+                    continue
+                n_paths += 1
+                ops = o.st.auto[0]
+                if ops and ops[-1][0] in ("W", "A"):
+                    continue
+                knows, unknown = _value_knowledge(o.st.facts, V)
+                if unknown:
+                    raise AnalysisError(f"{fi.fq}: a path that does not end with a header write depends on {unknown[0]}, a condition over the assigned value that the clause does not model")
+                did = f"ends with {'a deletion of' if ops[-1][0] == 'D' else 'an operation that may not write'} {ops[-1][1]!r}" if ops else "performs no header operation"
+                bad.append(f"a path that knows {knows} (not that it is None) {did} (lines {', '.join(map(str, o.st.trail[-6:])) or '-'}): a falsy value such as 0 does not reach the header")
+            prop = name.rsplit(".", 1)[0]
+            ctx.ob("R16.6", f"{c.name}.{prop} setter writes the header for every value but None", not bad, "; ".join(sorted(set(bad))[:2]) or f"{n_paths} completing path(s) for a value not known to be None, each ending with a header write", fi, fi.node, f"{c.name}.{prop} setter scalar")
+    ctx.floor("R16.6", "explicit setters of scalar header properties", n, 1)
+
+
 def _canon_func(e: ast.AST) -> str:
     """canonical text of a load / dump function: module prefixes dropped, ``lambda x: F(x)`` eta-reduced to ``F``,
     lambda parameters renamed positionally."""
@@ -399,6 +499,24 @@ def _canon_func(e: ast.AST) -> str:
     return norm(e)
 
 
+def _item_events(a, ev, st_):
+    """what the path did to items of the storage, in order: subscript stores / deletions, and method calls on the
+    storage object that write (``S.__setitem__(k, v)`` / ``S.set(k, v)``), drop (pop / clear / ...) or may write."""
+    if ev[0] == "storeitem":
+        return (a + ((ev[1], ev[2], ev[3]),))[-6:]
+    if ev[0] == "handler":
+        return (a + (("__handler__", "", "__handler__"),))[-6:]  # the path continues in an except clause
+    if ev[0] == "mcall":
+        recv, attr, args = ev[1], ev[2], ev[3]
+        if attr in ("__setitem__", "set") and len(args) == 2:
+            return (a + ((recv, args[0], args[1]),))[-6:]
+        if attr in ("pop", "popitem", "clear", "remove", "discard", "__delitem__"):
+            return (a + ((recv, args[0] if args else "*", "__deleted__"),))[-6:]
+        if attr in ("update", "setdefault", "add", "setlist", "setlistdefault", "add_header", "extend"):
+            return (a + ((recv, args[0] if args else "*", f"__unmodelled_{attr}__"),))[-6:]
+    return a
+
+
 def _accessor(ctx: Ctx, k: ClassInfo) -> None:
     """the accessor descriptor stores dump_func(value) under its own name in the object's header storage and loads
     load_func(<the item under its own name>) from the same storage."""
@@ -410,19 +528,48 @@ def _accessor(ctx: Ctx, k: ClassInfo) -> None:
     tag = "" if k.name == "header_property" else f"{k.name} "
     bad: list[str] = []
     storages: set[str] = set()
+    V = "__p2__"  # the assigned value
+    n_paths = n_none = 0
+
     for dump_none in (False, True):
-        outs, evs, _ = _collect(repo, k, st, ("storeitem",), facts0={"__self__.dump_func is None": dump_none, "__self__.read_only": False, "__self__.dump_func": not dump_none})
+        # path form: on EVERY completing path of __set__ that does not know the assigned value to be the sentinel None
+        # (identity), the item under the accessor's own name ends up as dump_func(value) (the value itself without a
+        # dumper).  A path that skips / deletes instead because the value is merely falsy, equal to some constant or a
+        # member of some collection loses a legitimate value (content_length = 0, age = timedelta(0), location = '').
+        ex = H.Exec(repo, k, on_event=_item_events)
+        outs = ex.run_function(st, auto0=(), facts0={"__self__.dump_func is None": dump_none, "__self__.read_only": False, "__self__.dump_func": not dump_none})
         rets = [o for o in outs if o.kind == "ret"]
-        stores = {(e[1], e[2], e[3]) for e in evs}
-        want = "__p2__" if dump_none else "__self__.dump_func(__p2__)"
-        if not rets or len(stores) != 1:
-            bad.append(f"dump_func {'absent' if dump_none else 'present'}: stores {sorted(stores)}")
+        want = V if dump_none else f"__self__.dump_func({V})"
+        which = f"dump_func {'absent' if dump_none else 'present'}"
+        if not rets:
+            bad.append(f"{which}: no completing path")
             continue
-        obj, idx, val = next(iter(stores))
-        storages.add(obj)
-        if idx != "__self__.name" or val != want:
-            bad.append(f"dump_func {'absent' if dump_none else 'present'}: stores `{val}` under `{idx}` (expected `{want}` under `self.name`)")
-    ctx.ob("R16.6", f"{tag}_DictAccessorProperty.__set__ stores dump_func(value) under its own name", not bad, "; ".join(bad) or f"storage {sorted(storages)}", st, st.node, f"{tag}accessor set")
+        for o in rets:
+            if o.st.facts.get(f"{V} is None") is True:
+                n_none += 1
+                continue  # the sentinel: "no value" may be handled apart
+            n_paths += 1
+            knows, unknown = _value_knowledge(o.st.facts, V, (f"__self__.dump_func({V})",))
+            lines = ", ".join(map(str, o.st.trail[-6:])) or "-"
+            events = [e for e in o.st.auto if e[0] != "__handler__"]
+            written = [e for e in events if e[2] != "__deleted__" and not e[2].startswith("__unmodelled_")]
+            # a write the clause does not model (update / setdefault / ...) matters where it could be the store: on the
+            # object that is written, or on a path that otherwise stores nothing
+            unmodelled = [e for e in events if e[2].startswith("__unmodelled_") and (not written or e[0] == written[-1][0])]
+            if unmodelled:
+                raise AnalysisError(f"{st.fq}: an item is written with `{unmodelled[0][0]}.{unmodelled[0][2][len('__unmodelled_'):-2]}(...)`, which the rule does not model")
+            if not written:
+                if unknown:
+                    raise AnalysisError(f"{st.fq}: a path that completes without storing the item depends on {unknown[0]}, a condition over the assigned value that the clause does not model")
+                bad.append(f"{which}: a path that knows {knows} (not that it is None) completes without storing the item (lines {lines}): a falsy / matching value such as 0, timedelta(0) or '' is dropped instead of dumped")
+                continue
+            mine = [e for e in events if e[0] == written[-1][0]]  # what happened to the storage object that was written
+            obj, idx, val = mine[-1]
+            storages.add(obj)
+            if idx != "__self__.name" or val != want or any(e[1] != "__self__.name" or e[2] not in (want, "__deleted__") for e in mine):
+                bad.append(f"{which}: a path that knows {knows} ends with `{obj}[{idx}] = {val}` (expected `{want}` under `self.name`; lines {lines})")
+    bad = sorted(set(bad))
+    ctx.ob("R16.6", f"{tag}_DictAccessorProperty.__set__ stores dump_func(value) under its own name", not bad, "; ".join(bad[:3]) or f"storage {sorted(storages)}; {n_paths} completing path(s) for a value not known to be None, each ending with that store" + (f"; {n_none} path(s) for `value is None`" if n_none else ""), st, st.node, f"{tag}accessor set")
     outs, _, _ = _collect(repo, k, gt, (), facts0={"__p1__ is None": False, "__self__.load_func is None": False, "__self__.load_func": True})
     vals = sorted({o.value for o in outs if o.kind == "ret"})
     loaded = []
@@ -438,6 +585,59 @@ def _accessor(ctx: Ctx, k: ClassInfo) -> None:
     ok = bool(loaded) and all(loaded) and not raw
     ctx.ob("R16.6", f"{tag}_DictAccessorProperty.__get__ loads from its own name", ok, f"returns {vals}", gt, gt.node, f"{tag}accessor get")
     _accessor_presence(ctx, k, gt, storages, tag)
+    _accessor_delete(ctx, k, storages, tag)
+
+
+def _accessor_delete(ctx: Ctx, k: ClassInfo, storages: set[str], tag: str) -> None:
+    """delete side of the typed properties: ``del response.prop`` removes the header whatever its text.  On every
+    completing path of ``__delete__`` (not read-only) the item under the accessor's own name leaves the storage
+    (pop / del), or the path has found the name absent; a path that keeps the item because the stored text is merely
+    falsy leaves a present, empty header behind."""
+    repo = ctx.repo
+    _, dl = repo.lookup(k, "__delete__")
+    if not isinstance(dl, FuncInfo):
+        return  # no deleter: nothing to decide (whether the property is deletable is not part of these clauses)
+    ex = H.Exec(repo, k, on_event=_item_events)
+    rets = [o for o in ex.run_function(dl, auto0=(), facts0={"__self__.read_only": False}) if o.kind == "ret"]
+    if not rets:
+        raise AnalysisError(f"{dl.fq}: no completing path")
+    bad: list[str] = []
+    undecided: list[str] = []
+    n_drop = 0
+    for o in rets:
+        handled = any(e[0] == "__handler__" for e in o.st.auto)
+        events = [e for e in o.st.auto if (e[0] in storages if storages else e[0] != "__handler__")]
+        lines = ", ".join(map(str, o.st.trail[-6:])) or "-"
+        if events and events[-1][2] == "__deleted__" and events[-1][1] == "__self__.name":
+            n_drop += 1
+            continue
+        if events:
+            bad.append(f"a path ends with `{events[-1][0]}[{events[-1][1]}] = {events[-1][2]}` instead of dropping the item under `self.name` (lines {lines})")
+            continue
+        absent, falsy = [], []
+        for key, val in o.st.facts.items():
+            n = H.P(key)
+            if isinstance(n, ast.Compare) and len(n.ops) == 1:
+                op, a, b = n.ops[0], n.left, n.comparators[0]
+                if isinstance(op, ast.In) and H.text(a) == "__self__.name" and H.text(b) in storages and val is False:
+                    absent.append(key)
+                for x, y in ((a, b), (b, a)):
+                    it = _item_read(x, storages)
+                    if it is not None and isinstance(op, (ast.Is, ast.Eq)) and it[1] is not None and H.text(y) == it[1] and val is True:
+                        absent.append(key)
+            elif _item_read(n, storages) is not None and val is False:
+                falsy.append(key)
+        if absent or handled:  # found absent by a test, or by the KeyError of the removal (the path ran through an except clause)
+            n_drop += 1
+        elif falsy:
+            bad.append(f"a path keeps the item knowing only that `{falsy[0]}` is falsy (lines {lines}): a header that is present with an empty text survives `del`")
+        elif not any("__self__.name" in key or any(s_ in key for s_ in storages) for key in o.st.facts):
+            bad.append(f"a path completes without touching the item under `self.name` and without having tested for it (lines {lines})")
+        else:
+            undecided.append(lines)
+    if undecided and not bad:
+        raise AnalysisError(f"{dl.fq}: a path (lines {undecided[0]}) completes without dropping the item, and no absence test of the key explains it")
+    ctx.ob("R16.6", f"{tag}_DictAccessorProperty.__delete__ drops the item under its own name", not bad, "; ".join(bad[:2]) or f"{n_drop} completing path(s), each dropping `self.name` from {sorted(storages)} or having found it absent", dl, dl.node, f"{tag}accessor delete")
 
 
 def _item_read(n: ast.AST, storages: set[str]) -> tuple[str, str | None] | None:
@@ -509,13 +709,15 @@ def _accessor_presence(ctx: Ctx, k: ClassInfo, gt: FuncInfo, storages: set[str],
                                 falsy.append(f"`{key}` is {str(val).lower()}")
                 elif _item_read(n, storages) is not None and val is False:
                     falsy.append(f"`{key}` is falsy")
+                elif isinstance(n, ast.Call) and H.text(n.func) == "__self__.load_func" and len(n.args) == 1 and not n.keywords and _item_read(n.args[0], storages) is not None and val is False:
+                    falsy.append(f"the loaded value `{key}` is falsy (0, timedelta(0), an empty set are values)")
                 elif isinstance(n, ast.Call) and dotted(n.func) == "len" and len(n.args) == 1 and _item_read(n.args[0], storages) is not None and val is False:
                     falsy.append(f"`{key}` is 0")
             lines = ", ".join(map(str, o.st.trail[-6:]))
             if absent:
                 seen_ok.add(f"key found absent ({absent[0]})")
             elif falsy:
-                bad.append(f"{'with' if loader else 'without'} a loader, a path returns `{o.value}` knowing only that the stored item is empty ({falsy[0]}; lines {lines}): a header that is present with an empty text reads back as the default")
+                bad.append(f"{'with' if loader else 'without'} a loader, a path returns `{o.value}` knowing only that the stored item is empty / loads to something falsy ({falsy[0]}; lines {lines}): a header that is present (with an empty text, or with a text such as '0') reads back as the default")
             elif o.st.auto:
                 seen_ok.add("an except handler (item read / loader failed)")
             else:
